@@ -1,6 +1,7 @@
 import Driver.Util
 import PasslibVerif.Model.Formats.Md5Sha2
 import PasslibVerif.Model.Formats.Static
+import PasslibVerif.Model.Formats.DesBcrypt
 namespace Driver.Formats
 open Py Driver Model.Handler Model.Formats
 
@@ -12,7 +13,7 @@ def showParsed (p : Parsed) : String :=
   s!"{showNatList p.ident} {showOptInt p.rounds} {showOptStr p.salt} {showOptStr p.checksum} " ++
   (if p.extra.isEmpty then "-" else ";".intercalate (p.extra.map fun kv => kv.1 ++ "=" ++ showNatList kv.2))
 
-def formats : List Format := Model.Formats.all ++ Model.Formats.staticAll
+def formats : List Format := Model.Formats.all ++ Model.Formats.staticAll ++ Model.Formats.desBcryptAll
 
 def handle (args : List String) : String :=
   match args with
